@@ -11,7 +11,8 @@ from ..oracle import timespec as TS
 ID = "C07"
 LEVEL = "exploration"
 BUDGET = {"quick": 55, "thorough": 900}
-FLOOR = {"quick": 400, "thorough": 4000}
+QUICK_CASES = 3000  # generator items in the quick tier (fixed amount of work; BUDGET is then only a safety cap)
+FLOOR = {"quick": 20000, "thorough": 4000}
 TIMEOUT = 90
 REQUIRED_OBS = ["matcher_queries", "guarded_cases", "occurrences", "accepted", "rejected_time_active", "rejected_state_active", "rejected_hold_off", "direct_calls"]
 RULE = (
